@@ -426,8 +426,12 @@ def run(ctx):
     # ---- accepted by check_input, yet the generator cannot run: 2.0**(max_reward+1) overflows from 1023 on
     ctx.evaluations += 1
     if rover.get("rc") not in (0, None) and "OverflowError" in (rover.get("stderr") or "") and not rover.get("files"):
-        ctx.known_hits.append(("K3", "max_reward >= 1023 passes check_input but gen_rnd_board raises OverflowError "
-                                     "(2.0**(max_reward+1)); nothing is written"))
+        what = ("max_reward >= 1023 passes check_input but gen_rnd_board raises OverflowError "
+                "(2.0**(max_reward+1)); nothing is written")
+        if any(k.get("id") == "K3" for k in ctx.known_witnesses()):
+            ctx.known_hits.append(("K3", what))
+        else:
+            ctx.violation("an accepted parameter set produces no board: " + what, dict(argv=["-m", "1023"]), impl=rover)
     elif rover.get("rc") != 0:
         ctx.violation("max_reward 1023: unexpected failure %s" % str(rover)[:300], dict(argv=["-m", "1023"]), impl=rover)
     for e in errs + errs2 + errs3 + errs4:
